@@ -3,7 +3,7 @@ import random
 from ..framework import Check
 from .. import mgr_check, mgr_common as C
 
-THEOREMS = ["C07_gone", "C07_lists_only_live", "C07_departed_not_recipient", "C07_rest_untouched", "C07_ex", 'C07_departure_exact', 'C07_closed_state_clean', 'C07_second_removal_noop', 'C07_id_and_name_free', 'C07_departed_not_in_use', 'C07_inflight_delivery_unaffected', 'C07_inflight_delivery_unconditional', 'C07_closed_at_most_once', 'C07_closed_reaches_healthy', 'C07_is_cc_meaning', 'C07_closed_once_ex']
+THEOREMS = ["C07_gone", "C07_lists_only_live", "C07_departed_not_recipient", "C07_rest_untouched", "C07_ex", 'C07_departure_exact', 'C07_closed_state_clean', 'C07_second_removal_noop', 'C07_id_and_name_free', 'C07_departed_not_in_use', 'C07_inflight_delivery_unaffected', 'C07_inflight_delivery_unconditional', 'C07_closed_at_most_once', 'C07_closed_reaches_healthy', 'C07_is_cc_meaning', 'C07_closed_once_ex', 'C07_loggers_only_live', 'C07_departed_in_no_table', 'C07_tables_ex']
 CHECKERS = ["C07", "C01", "C03"]
 
 
